@@ -12,7 +12,7 @@ HOST_PY = {"str": str, "int": int, "float": float, "bool": bool, "list": list, "
 
 
 def known(av):
-    return av.types is not None and av.types and not any(t.startswith(("PARAM:", "SELF")) for t in av.types)
+    return av.types is not None and av.types and not any(t.startswith(("PARAM:", "SELF", "?")) for t in av.types)
 
 
 def attr_obligations(ctx, rule, engine, func, exempt=()):
